@@ -332,7 +332,7 @@ fn c06(tier: Tier, seed: u64) -> i32 {
 		carrier && later_get && r.executed_steps >= 3
 	};
 	let e = SeqEval { prop: "C06", opts, nontrivial: &nontrivial, extra: None };
-	let n = tier.pick(50_000, 3_000_000);
+	let n = tier.pick(100_000, 3_000_000);
 	ctx.search("seq-key-histories", n, 220, |bytes, want| {
 		let case = gen_seq(&mut Src::new(bytes), &cfg);
 		eval_seq_case(&e, &case, want)
@@ -362,7 +362,7 @@ fn c13(tier: Tier, seed: u64) -> i32 {
 	// (in a quiescent state it would wait for ever instead of failing)
 	let extra = |case: &SeqCase, r: &RunResult| -> Vec<Finding> { post_findings("C13", &AnyCase::Seq(case.clone()), r) };
 	let e = SeqEval { prop: "C13", opts, nontrivial: &nontrivial, extra: Some(&extra) };
-	let n = tier.pick(40_000, 2_000_000);
+	let n = tier.pick(150_000, 4_000_000);
 	ctx.search("seq-quiescent-try", n, 200, |bytes, want| {
 		let case = gen_seq(&mut Src::new(bytes), &cfg);
 		eval_seq_case(&e, &case, want)
@@ -508,7 +508,7 @@ fn c04(tier: Tier, seed: u64) -> i32 {
 	let (cfg, opts) = seq_profile("C04").unwrap();
 	let nontrivial = |case: &SeqCase, r: &RunResult| (has(r, "rollback") || any_nested_or_big(case)) && has(r, "acquire.");
 	let e = SeqEval { prop: "C04", opts, nontrivial: &nontrivial, extra: None };
-	let n = tier.pick(40_000, 2_000_000);
+	let n = tier.pick(120_000, 4_000_000);
 	ctx.search("seq-all-or-nothing", n, 220, |bytes, want| {
 		let case = gen_seq(&mut Src::new(bytes), &cfg);
 		eval_seq_case(&e, &case, want)
@@ -528,7 +528,7 @@ fn c03(tier: Tier, seed: u64) -> i32 {
 		acq >= 2 && (has(r, "try_failed") || has(r, "key_via_unlock") || has(r, "panic_in_scoped") || has(r, "panic_with_guard"))
 	};
 	let e = SeqEval { prop: "C03", opts, nontrivial: &nontrivial, extra: None };
-	let n = tier.pick(40_000, 2_000_000);
+	let n = tier.pick(120_000, 4_000_000);
 	ctx.search("seq-total-allocation", n, 220, |bytes, want| {
 		let case = gen_seq(&mut Src::new(bytes), &cfg);
 		eval_seq_case(&e, &case, want)
@@ -545,7 +545,7 @@ fn c05(tier: Tier, seed: u64) -> i32 {
 	let (cfg, opts) = seq_profile("C05").unwrap();
 	let nontrivial = |_case: &SeqCase, r: &RunResult| has(r, "released_multi") || has(r, "rollback");
 	let e = SeqEval { prop: "C05", opts, nontrivial: &nontrivial, extra: None };
-	let n = tier.pick(40_000, 2_000_000);
+	let n = tier.pick(120_000, 4_000_000);
 	ctx.search("seq-release-audit", n, 220, |bytes, want| {
 		let case = gen_seq(&mut Src::new(bytes), &cfg);
 		eval_seq_case(&e, &case, want)
@@ -584,7 +584,7 @@ fn c17(tier: Tier, seed: u64) -> i32 {
 		hit && r.executed_steps >= 2
 	};
 	let e = SeqEval { prop: "C17", opts, nontrivial: &nontrivial, extra: None };
-	let n = tier.pick(40_000, 1_000_000);
+	let n = tier.pick(150_000, 3_000_000);
 	ctx.search("seq-non-acquiring", n, 220, |bytes, want| {
 		let case = gen_seq(&mut Src::new(bytes), &cfg);
 		eval_seq_case(&e, &case, want)
@@ -905,7 +905,7 @@ pub fn conc_campaign(ctx: &mut CheckCtx, prop: &'static str, tier: Tier) {
 	let nontrivial = |case: &ConcCase, r: &RunResult| conc_nontrivial(prop, case, r);
 	let extra = |case: &ConcCase, r: &RunResult| post_findings(prop, &AnyCase::Conc(case.clone()), r);
 	let e = ConcEval { prop, nontrivial: &nontrivial, extra: Some(&extra) };
-	let n = tier.pick(30_000, 1_000_000);
+	let n = tier.pick(60_000, 1_500_000);
 	ctx.search("conc-programs-x-schedules", n, 260, |bytes, want| {
 		let case = gen_conc(&mut Src::new(bytes), &cfg);
 		eval_conc_case(&e, &case, want)
@@ -1185,7 +1185,7 @@ fn c12(tier: Tier, seed: u64) -> i32 {
 	let mut ctx = CheckCtx::new("C12", "fault_enumeration", tier, seed);
 	ctx.rule = "Base cases decoded from proptest byte vectors: world (all kinds, Mutex and RwLock leaves, nesting, by-value and by-reference) x target x {write, read} x {lock, try_lock, scoped_lock, scoped_try_lock, guard drop, unlock fn} x pre-held pattern (phantom read/write holders). Each base case is run fault-free to count the raw operations n of the chosen call, then re-run with a one-shot panic at EVERY raw-operation index 0..n-1, and with 2 persistent per-(lock, operation-class) fault sets (as tests/evil_*.rs) placed on member locks. Oracle on the trace of the faulted call: the panic reaches the caller; no release of a lock the caller does not hold; nothing but a lock whose own release panicked stays held; afterwards try_* on the faulted lock fails and a blocking acquisition panics. Non-trivial = the fault index is neither the first nor the last operation and another lock was held at the fault; distinct = hash(base case, fault plan). evaluations counts every faulted execution.".into();
 	ctx.assumptions.push("fault model: a faulted raw operation has no effect on the lock state (like the repository's evil_* locks)".into());
-	let n = tier.pick(12_000, 400_000);
+	let n = tier.pick(40_000, 1_500_000);
 	ctx.search("seq-fault-enumeration", n, 160, |bytes, want| c12_eval(bytes, want));
 	ctx.require_label("c12.fault.unlock", 500);
 	ctx.require_label("c12.fault.try", 500);
@@ -1535,7 +1535,7 @@ fn c16(tier: Tier, seed: u64) -> i32 {
 		"scenarios use happylock's default parking_lot raw locks (no lock instrumentation is needed for this property)".into(),
 	];
 	ctx.rule = "Scenario plans decoded from proptest byte vectors: leaf type (Mutex, RwLock, Poisonable<Mutex>) x container (Vec, Box<[_]>, arrays of 0..4, tuples of 1..3) x size 0..4 x construction path (Boxed new / from / try_new / new_ref, Owned new / from, Retrying new / from / try_new / new_ref, Ref new / try_new, FromIterator (collect) into Boxed / Owned / Retrying over Vec, and try_new REJECTING an input that owns locks next to a duplicated reference) x writes under lock (through collection guards and scoped closures, per position) x optional poisoning panic x destruction path (drop, into_child + into_inner of the container, into_inner, into_iter (+ into_inner of every lock), extend (Owned / Retrying over Vec) then into_inner, get_mut / child_mut then drop, by-reference collection then container get_mut / into_inner). Oracle: drop-counting payloads: every id exactly once when everything is gone (and exactly once right after a rejected try_new); get_mut / into_inner / into_child return (id, last written version) at every declared position. Non-trivial = a write under a lock followed by a consuming destructor or observer, or a rejected try_new with owned content; distinct = hash of the plan.".into();
-	let n = tier.pick(200_000, 4_000_000);
+	let n = tier.pick(600_000, 10_000_000);
 	ctx.search("drop-once-and-round-trip", n, 40, |bytes, want| c16_eval(bytes, want));
 	ctx.require_label("c16.rejected_try_new_with_owned_content", 1000);
 	ctx.require_label("c16.poisoned", 1000);
